@@ -69,9 +69,9 @@ func VerifC19_Histories() {
 	symx.Check(chain.save(genesis) == nil, "genesis is saved")
 	groupChainImpl = chain
 	list := []*types.Group{genesis}
-	n := 3
+	n := 5
 	if symx.Thorough() {
-		n = 5
+		n = 6
 	}
 	next := byte('a')
 	for step := 0; step < n; step++ {
